@@ -43,6 +43,12 @@ def prepare():
 def run(crate_key, prefixes, timeout=3000):
     """-> list of dict(test, status ok|failed|harness-error, cases, failures=[...], wall)"""
     d, pkg = CRATES[crate_key]
+    hfile = os.path.join(VERIF, 'harness', crate_key, 'vx_harness.rs')
+    if not os.path.exists(hfile):
+        return []
+    names = re.findall(r'#\[test\]\s*fn (\w+)\(\)', open(hfile).read())
+    if not any(n.startswith(p_) for n in names for p_ in prefixes):
+        return []
     os.makedirs(os.path.dirname(TARGET), exist_ok=True)
     lock = open('/var/tmp/vx-bx.lock', 'w')
     fcntl.flock(lock, fcntl.LOCK_EX)
